@@ -149,9 +149,27 @@ def run(ck, facts, tier):
 
     # ---- R20.3
     r3 = ck.rule("R20.3", "struct-literal construction of a shape-constrained type occurs only in the reviewed constructor/operator functions", floor=20)
+    rev_callers = {}
+    for f_ in P.cfgs:
+        for tgt in P.callees(f_)[0]:
+            rev_callers.setdefault(tgt, set()).add(f_)
+        for ch in P.children.get(f_, ()):
+            rev_callers.setdefault(ch, set()).add(f_)
+
+    def only_from_reviewed(fn, allowed, depth=0, seen=frozenset()):
+        """A private function all of whose callers are reviewed constructors of the type (or such helpers themselves): a helper extracted from them. Its
+        construction site is then judged where the reviewed constructors are: R20.6 evaluates them through their helpers."""
+        rec_ = facts.fn(cc.root_of(fn))
+        if rec_ is None or depth > 3 or fn in seen or str(rec_.get("vis", "Public")).startswith("Public"):
+            return False
+        cs = rev_callers.get(fn, set()) | rev_callers.get(cc.root_of(fn), set())
+        cs = {c_ for c_ in cs if cc.root_of(c_) != cc.root_of(fn)}
+        return bool(cs) and all(any(re.search(rx, c_) for rx, _ in allowed) or only_from_reviewed(c_, allowed, depth + 1, seen | {fn}) for c_ in cs)
     for adt, allowed in LITERAL_OK.items():
         for fn, ln in struct_literal_sites(facts, adt):
             why = next((w for rx, w in allowed if re.search(rx, fn)), None)
+            if why is None and only_from_reviewed(fn, allowed):
+                why = "private helper called only from the reviewed constructors of this type (judged with them by R20.6)"
             rec = facts.fn(fn)
             ck.check(r3, "%s@%s" % (adt.split("::")[-1], cc.family(fn)), why is not None,
                      "`%s { .. }` constructed outside the reviewed constructors (shape invariant not established here)" % adt,
@@ -205,7 +223,15 @@ def loader_rule(ck, facts, P=None, only=None):
         safe_c = _bounds.safe_sites(rec_c) if rec_c is not None else set()
         sites = [s_ for s_ in sites if not (_bounds.kind_class(s_["kind"]) and (s_["ln"], _bounds.kind_class(s_["kind"])) in safe_c)]      # safe by shape (rules/bounds.py)
         callees = {c.callee_name(t) for _, t in c.calls()}
-        has_err = any(s.get("adt", "").endswith("Result") and s.get("variant") == "Err" for b in c.blocks for s in b["stmts"])
+        def errs_in(cfg_):
+            return any(s.get("adt", "").endswith("Result") and s.get("variant") == "Err" for b in cfg_.blocks for s in b["stmts"])
+        has_err = errs_in(c)
+        if not has_err:
+            # the guard may sit in a private helper the conversion calls directly (a shared validation routine)
+            for tgt in sorted(P.callees(conv[0])[0]):
+                rec_t = facts.fn(tgt)
+                if rec_t is not None and not str(rec_t.get("vis", "Public")).startswith("Public") and tgt in P.cfgs and errs_in(P.cfgs[tgt]):
+                    has_err = True
         validates = (ctor and any(re.search(ctor, x or "") for x in callees)) or (ctor is None and has_err)
         if sites:
             ck.fail(r2, adt, "conversion %s contains a panic edge %s" % (conv[0], sites[0]["kind"]), "%s:%d" % (c.rec["file"], sites[0]["ln"]))
